@@ -5,6 +5,9 @@ MCBuiltIn == <<"payFees", "commit_settings_changes">>
 ExpBlock == LET f == SelectSeq(blk, LAMBDA e : e.p # 0) IN [i \in 1..Len(f) |-> f[i].p]
 Scenario == [st |-> st, pool |-> hist, exp |-> ExpBlock]
 GPrint == (phase = "done") => PrintT(<<"BEHAVIOUR", ToJson(Scenario)>>)
+\* behaviour generation (-simulate picks successors uniformly): valid classes are given more weight
+GenTxn == [s : Sender, n : 1..MaxNonce, c : Class, w : {1}] \cup [s : Sender, n : 1..MaxNonce, c : {"ok"}, w : {2, 3, 4}]
+          \cup [s : Sender, n : 1..MaxNonce, c : {"sc"}, w : {2}]
 \* exhaustive runs: the pool history is a function of nothing the generator reads later
 View == <<st, len, Len(hist), nonce, mnonce, blk, fut, cur, ci, cost, phase, verdict>>
 =============================================================================
